@@ -113,6 +113,10 @@ func checkC04(ctx *Ctx) {
 			if !asc {
 				continue
 			}
+			twinned := false
+			if it%4 == 1 {
+				cs, twinned = addTwin(r, e, scheme, cs)
+			}
 			rng := renderVers(r, scheme, cs, true)
 			key := ""
 			for _, c := range cs {
@@ -147,6 +151,12 @@ func checkC04(ctx *Ctx) {
 			var probes []probeT
 			for i := range probeIdx {
 				probes = append(probes, probeT{vs[i], vals[i]})
+			}
+			if twinned {
+				shapes["twin"]++
+				for _, c := range cs {
+					probes = append(probes, probeT{c.s, c.v})
+				}
 			}
 			if it%3 == 0 {
 				for _, c := range cs {
@@ -360,6 +370,12 @@ func checkC16(ctx *Ctx) {
 			}
 			if !uniq {
 				continue
+			}
+			if it%4 == 1 {
+				var tw bool
+				if cs, tw = addTwin(r, e16, scheme, cs); tw {
+					kinds["twin"]++
+				}
 			}
 			parts := fmtCons(cs)
 			base := "vers:" + scheme + "/" + strings.Join(parts, "|")
@@ -681,4 +697,54 @@ func versCaseConsistent(rng, probe string) bool {
 		vals = vals[:12]
 	}
 	return consistentSet(e, vals)
+}
+
+// addTwin: for one '=' or '!=' constraint of an ascending constraint list, another constraint with
+// the same comparator on a text that is a respelling of its version (prefix v, case, trailing
+// zeros, separators: spellingVariants) which the ecosystem does NOT call equal to it.  The list
+// stays pairwise non-equivalent and ascending (the twin is inserted at its place in the order).
+// Bookkeeping keyed on a normalised text (duplicate elimination, caches) is decided on such twins.
+func addTwin(r *RNG, e *Eco, scheme string, cs []vcons) ([]vcons, bool) {
+	var cand []int
+	for i, c := range cs {
+		if c.op == "=" || c.op == "!=" {
+			cand = append(cand, i)
+		}
+	}
+	if len(cand) == 0 {
+		return cs, false
+	}
+	c := cs[cand[r.Intn(len(cand))]]
+	xs := spellingVariants(r, e.Name, c.s)
+	for _, k := range r.Perm(len(xs)) {
+		x := xs[k]
+		if !isASCII(x) || !boundOK(scheme, x) || strings.TrimSpace(x) != x {
+			continue
+		}
+		px := e.Parse(x)
+		if !px.OK {
+			continue
+		}
+		ok, pos := true, len(cs)
+		for i, d := range cs {
+			a, b := cmpS(e, px.Val, d.v), cmpS(e, d.v, px.Val)
+			if a == 0 || b == 0 || (a < 0) != (b > 0) {
+				ok = false
+				break
+			}
+			if a < 0 && pos == len(cs) {
+				pos = i
+			}
+			if a > 0 && pos != len(cs) {
+				ok = false // not transitive here
+				break
+			}
+		}
+		if !ok {
+			continue
+		}
+		out := append(append(append([]vcons{}, cs[:pos]...), vcons{c.op, x, px.Val}), cs[pos:]...)
+		return out, true
+	}
+	return cs, false
 }
